@@ -1369,3 +1369,200 @@ func ruleCleanupNonblock(c *Ctx, r *Reporter) {
 		r.anchorMissing("runtime.AddCleanup / SetFinalizer with a module function")
 	}
 }
+
+func init() {
+	register(&Rule{
+		ID: "NODE-REMOVE", Props: []string{"C11", "C17", "C04"}, Floor: 4,
+		Doc: "header.remove clears the child slot it vacates in every node kind: node4 and node16 look keys up without consulting the size (the filler key 255 matches the byte 0xff), so a slot that keeps its pointer stays reachable through Get/Prefix after the entry was deleted",
+		Run: ruleNodeRemove,
+	})
+	register(&Rule{
+		ID: "WAIT-SHAPE", Props: []string{"C20"}, Floor: 2,
+		Doc: "WatchSet.Wait: an empty set waits for the context (the only return with a nil slice is behind <-ctx.Done()); the settle window is one deadline created before the gathering loop, not a new one per collected channel",
+		Run: ruleWaitShape,
+	})
+}
+
+func ruleNodeRemove(c *Ctx, r *Reporter) {
+	fn := c.Func("part", "header", "remove")
+	if fn == nil {
+		r.anchorMissing("part.(header).remove")
+		return
+	}
+	cleared := map[string]bool{}
+	for _, ia := range allInstrs(fn) {
+		st, ok := ia.In.(*ssa.Store)
+		if !ok || !isNilConst(st.Val) {
+			continue
+		}
+		ix, ok := st.Addr.(*ssa.IndexAddr)
+		if !ok {
+			continue
+		}
+		if fa, ok := ix.X.(*ssa.FieldAddr); ok {
+			if tn, f, _ := fieldOf(fa); f == "children" {
+				cleared[tn] = true
+			}
+			continue
+		}
+		// a slice obtained from children()
+		if call, ok := ix.X.(*ssa.Call); ok {
+			if sf := staticCallee(call); sf != nil && sf.Name() == "children" {
+				cleared["node48"] = true
+			}
+		}
+	}
+	for _, k := range []string{"node4", "node16", "node48", "node256"} {
+		r.check(cleared[k], "part.(header).remove|"+k+" slot cleared", c.posStr(fn.Pos()), "the vacated child slot of a "+k+" is set to nil", "removing a child from a "+k+" leaves the pointer in the vacated slot: lookups that do not consult the size (node4/node16 match the filler key 255 against the byte 0xff) still find the deleted entry, and the removed subtree stays reachable")
+	}
+}
+
+func ruleWaitShape(c *Ctx, r *Reporter) {
+	fn := c.Func("statedb", "WatchSet", "Wait")
+	if fn == nil {
+		r.anchorMissing("statedb.(WatchSet).Wait")
+		return
+	}
+	name := c.fnName(fn)
+	// (a) nothing is returned without waiting: every return of a nil slice comes after a receive
+	// from ctx.Done() or after a reflect.Select (Wait on an empty set blocks until the context ends)
+	var waits []ssa.Instruction
+	for _, ia := range allInstrs(fn) {
+		switch x := ia.In.(type) {
+		case *ssa.UnOp:
+			if x.Op == token.ARROW {
+				if call, ok := x.X.(*ssa.Call); ok && call.Call.IsInvoke() && call.Call.Method.Name() == "Done" {
+					waits = append(waits, x)
+				}
+			}
+		case *ssa.Call:
+			if c.calleeName(x) == "reflect.Select" {
+				waits = append(waits, x)
+			}
+		}
+	}
+	var pos ssa.Instruction
+	good := true
+	nNil := 0
+	for _, ret := range returnsOf(fn) {
+		vals := retValues(ret)
+		if len(vals) == 0 || !isNilConst(vals[0]) {
+			continue
+		}
+		nNil++
+		waited := false
+		for _, w := range waits {
+			if instrDominates(w, ret) {
+				waited = true
+			}
+		}
+		if !waited {
+			good = false
+			pos = ret
+		}
+	}
+	if nNil == 0 {
+		r.ok(name+"|an empty set waits for the context", c.posStr(fn.Pos()), "no return of a nil slice")
+	} else {
+		p := c.posStr(fn.Pos())
+		if pos != nil {
+			p = c.posStr(instrPos(pos))
+		}
+		r.check(good, name+"|an empty set waits for the context", p, "every return without channels is preceded by a wait on the context or on the select", "Wait can return (nil, ctx.Err()) without having waited for anything - with a live context that is (nil, nil): an empty set must block until the context ends, callers looping on Wait spin")
+	}
+	// (b) the settle deadline is created outside the gathering loop
+	okSettle := true
+	n := 0
+	for _, ia := range allInstrs(fn) {
+		call, ok := ia.In.(*ssa.Call)
+		if !ok || c.calleeName(call) != "context.WithTimeout" {
+			continue
+		}
+		n++
+		if blockReaches(call.Block(), call.Block()) {
+			okSettle = false
+			pos = call
+		}
+	}
+	if n == 0 {
+		r.undecided(name+"|one settle deadline", c.posStr(fn.Pos()), "no context.WithTimeout found")
+	} else {
+		p := c.posStr(fn.Pos())
+		if !okSettle {
+			p = c.posStr(instrPos(pos))
+		}
+		r.check(okSettle, name+"|one settle deadline", p, "the settle-time context is created once, before the loop that gathers further closed channels", "the settle-time deadline is re-created for every collected channel: channels that keep closing within the settle time postpone the return indefinitely (the settle time is a bound, not a debounce)")
+	}
+}
+
+func init() {
+	register(&Rule{
+		ID: "DERIVE-SNAPSHOT", Props: []string{"C19"}, Floor: 1,
+		Doc: "Derive marks its output table initialized from the same snapshot whose changes it has just consumed: the transaction given to InTable.Initialized is the one given to ChangeIterator.Next in that round, and the mark is made in the write transaction that also carries the derived objects",
+		Run: ruleDeriveSnapshot,
+	})
+}
+
+func ruleDeriveSnapshot(c *Ctx, r *Reporter) {
+	fn := c.fnByName("statedb.(derive).loop")
+	if fn == nil {
+		r.anchorMissing("statedb.(derive).loop")
+		return
+	}
+	under := func(v ssa.Value) ssa.Value {
+		for i := 0; i < 4; i++ {
+			switch x := v.(type) {
+			case *ssa.ChangeInterface:
+				v = x.X
+			case *ssa.MakeInterface:
+				v = x.X
+			case *ssa.ChangeType:
+				v = x.X
+			case *ssa.UnOp:
+				// a variable spilled into a cell because a closure captures it
+				if al, ok := x.X.(*ssa.Alloc); ok && x.Op == token.MUL {
+					return al
+				}
+				return v
+			default:
+				return v
+			}
+		}
+		return v
+	}
+	var nextArg, initArg, markArg ssa.Value
+	var initCall ssa.Instruction
+	for _, ia := range allInstrs(fn) {
+		call, ok := ia.In.(*ssa.Call)
+		if !ok {
+			continue
+		}
+		if call.Call.IsInvoke() {
+			switch call.Call.Method.Name() {
+			case "Next":
+				if len(call.Call.Args) == 1 {
+					nextArg = under(call.Call.Args[0])
+				}
+			case "Initialized":
+				if len(call.Call.Args) == 1 {
+					initArg = under(call.Call.Args[0])
+					initCall = call
+				}
+			}
+			continue
+		}
+		// d.markInit(wtxn): call of a func-typed field
+		if _, ok := loadOfField(call.Call.Value, "derive", "markInit"); ok && len(call.Call.Args) == 1 {
+			markArg = under(call.Call.Args[0])
+		}
+	}
+	key := "statedb.(derive).loop|initialized is read from the snapshot whose changes were consumed"
+	switch {
+	case nextArg == nil || initArg == nil || markArg == nil:
+		r.undecided(key, c.posStr(fn.Pos()), "could not find ChangeIterator.Next, Table.Initialized and the markInit call in the derive loop")
+	case initArg == nextArg && markArg == nextArg:
+		r.ok(key, c.posStr(instrPos(initCall)), "Next, Initialized and markInit use the round's write transaction")
+	default:
+		r.bad(key, c.posStr(instrPos(initCall)), "the input table's initialization is read from another snapshot than the one whose changes were consumed (or marked in another transaction): a producer that commits its last objects together with its initialization between the two is seen as initialized while those objects have not been derived - the output table is reported initialized too early")
+	}
+}
